@@ -487,14 +487,19 @@ pub fn specs(tier: Tier) -> Vec<(String, KyteaSpec)> {
                                 (wpool[j].to_string(), m)
                             })
                             .collect();
-                        let dv: Vec<i16> = (0..3 * dict_n as usize * n_dicts as usize).map(|q| (mix(900 + q as u64) % 2001) as i16 - 1000).collect();
+                        // every third file: weights at and near the 16-bit limits, so that sums over several
+                        // dictionaries leave the i16 range (the converted model holds i32)
+                        let extreme = [i16::MAX, i16::MIN, 20000, -20000, 15000, -1, 1, i16::MAX - 1];
+                        let dv: Vec<i16> = (0..3 * dict_n as usize * n_dicts as usize)
+                            .map(|q| if (a + i) % 3 == 0 { extreme[(mix(77 + q as u64 + a as u64) % extreme.len() as u64) as usize] } else { (mix(900 + q as u64) % 2001) as i16 - 1000 })
+                            .collect();
                         let k = KyteaSpec {
                             char_map: map.clone(),
                             char_w: 2,
                             type_w: 2,
                             dict_n,
                             n_tags: (i % 2) as u32,
-                            bias: 1,
+                            bias: if (a + i) % 3 == 0 { [i16::MAX, i16::MIN, 1][a % 3] } else { 1 },
                             char_ngrams: vec![("a".into(), entry(1, 2, 0, 7))],
                             type_ngrams: vec![("R".into(), entry(1, 2, 0, 8))],
                             n_dicts,
